@@ -79,6 +79,8 @@ pub struct Exec {
     pub fault_sites: Vec<(u32, u32)>,
     /// fault to inject while the world is dropped
     pub final_fault: Option<u16>,
+    /// set when a fault interrupted the lazy queue: the run ends (world dropped) after this op
+    pub abort_after_fault: bool,
     pub zst_dropped_seen: u64,
 }
 
@@ -129,6 +131,7 @@ impl Exec {
             c10_window: false,
             fault_sites: vec![],
             final_fault: None,
+            abort_after_fault: false,
             zst_dropped_seen: 0,
         };
         ex.prealloc()?;
@@ -506,6 +509,8 @@ impl Exec {
     // maintain
 
     pub fn maintain(&mut self) -> R {
+        // after a parallel phase, "every queued action has run exactly once" is C10's clause too
+        let lp: Vec<&str> = if self.c10_window { vec!["C09", "C10"] } else { vec!["C09"] };
         self.stats.maintains += 1;
         self.ctx.log.lock().unwrap().clear();
         self.wm().maintain();
@@ -538,7 +543,7 @@ impl Exec {
                 LazyAct::Exec { cid, script, depth } => {
                     let Some(entry) = log.get(li) else {
                         return Err(self.viol(
-                            &["C09"],
+                            &lp,
                             "lazy-exactly-once",
                             format!("queued closure {:#x} did not run during maintain", cid),
                         ));
@@ -546,7 +551,7 @@ impl Exec {
                     li += 1;
                     if entry.cid != cid {
                         return Err(self.viol(
-                            &["C09"],
+                            &lp,
                             "lazy-order",
                             format!(
                                 "closure {:#x} ran where closure {:#x} was next in queue order",
@@ -583,7 +588,7 @@ impl Exec {
         }
         if li != log.len() {
             return Err(self.viol(
-                &["C09"],
+                &lp,
                 "lazy-exactly-once",
                 format!(
                     "{} closure executions were logged but only {} were queued (closure {:#x} ran unexpectedly)",
@@ -596,7 +601,7 @@ impl Exec {
         let left = self.w().read_resource::<LazyUpdate>().verif_queue_len();
         if left != 0 {
             return Err(self.viol(
-                &["C09"],
+                &lp,
                 "lazy-queue-empty",
                 format!("{} actions are still queued after maintain returned", left),
             ));
@@ -1295,6 +1300,7 @@ pub fn op_props(k: &OpKind) -> Vec<&'static str> {
         RegisterReader { .. } | SetEmission { .. } => vec!["C12"],
         ChangeSet { .. } => vec!["C08"],
         Observe => vec!["C02"],
+        ByRef(inner) => op_props(inner),
         _ => vec!["C04", "C08"],
     }
 }
